@@ -24,8 +24,13 @@ class CloseSession(RPC):
 
     def request(self):
         "Request graceful termination of the NETCONF session, and also close the transport."
-        ret = self._request(new_ele("close-session"))
-        self.session.close()
+        try:
+            ret = self._request(new_ele("close-session"))
+        finally:
+            # close the transport also when the request fails (timeout, <rpc-error>,
+            # session already gone): close_session() and leaving the manager's
+            # with-block must not leave the session open
+            self.session.close()
         return ret
 
 
